@@ -354,6 +354,13 @@ def run(prog, chk):
     if validator_domain(prog, r6) < 8:
         raise Broken("fewer than 8 direct normaliser calls found")
 
+    r7 = chk.rule("R7-range-tests-cut-at-class-boundaries", "every relational comparison of a code unit with a constant next to a "
+                  "Unicode class boundary (surrogate ranges, the non-characters U+FDD0..FDEF and U+FFFE/F) cuts exactly at the "
+                  "boundary: the first and last member of a class are treated like the rest of it", primary=False, floor=8)
+    from .. import unirange
+    if unirange.rule(prog, r7, units=("utils.c",)) < 8:
+        raise Broken("fewer than 8 code-unit range comparisons found in utils.c")
+
 
 ITEM_TABLES = {"loop_item", "item_value"}
 CODE_TABLES = {"data_block", "save_frame"}
